@@ -143,6 +143,12 @@ func VerifH_ck() {
 		out2, err2 := c.Marshal(&vMsg{Name: "n"})
 		verifReach("second marshal")
 		verifAssert(err2 == nil && len(out2) == 6+n2, "C19: second Marshal failed or has the wrong length")
+		// every call computes its own checksum from scratch (nothing carried over from the call before)
+		crc2 := verifCrcOf(all2[:n2])
+		verifAssert(verifCrcArgsOK(all2[:n2]), "C19: checksum of the second message not computed over its standard encoding with the CRC32C polynomial")
+		if err2 == nil && len(out2) == 6+n2 {
+			verifAssert(out2[0] == 0xfd && out2[1] == 0x7f && out2[2] == byte(crc2) && out2[3] == byte(crc2>>8) && out2[4] == byte(crc2>>16) && out2[5] == byte(crc2>>24), "C19: prefix of the second message is not tag + little-endian CRC32C of its own encoding")
+		}
 		for i := 0; i < 6+vMaxPayload; i++ {
 			if i < len(out) {
 				verifAssert(out[i] == saved[i], "C19: an output handed out earlier changed when another message was marshalled (outputs share memory)")
